@@ -11,12 +11,14 @@ CLAIM = (
     "is established before the loop and preserved by every arm (paired updates of matching form; the bound follows from the arm's path "
     "condition as a difference constraint); every segments.append is either the joined accumulation (bounded by the invariant) or the "
     "bare token on a path where len(token) > line_width (the single-long-word case); the @ensure that the segments concatenate to the "
-    "text is present on the function."
+    "text is present on the function; ARTICLE: in the tokenisation loop, while an article is pending and the current part is a word, the only "
+    "thing added to the tokens is ONE string containing both (so the re-flow, which moves whole tokens, cannot end a segment on the article); "
+    "PURE: the function touches no module-level mutable container, or keys it by every parameter."
 )
 NOTE = (
     "Trusted base: the linear-form normaliser (sa/rules/lin.py) and the recognised update forms (x = 0 / [] , x = len(token) / [token], "
     "x += len(token) / .append(token)); an update outside these forms is reported, not assumed. Not decided: text preservation itself "
-    "(delegated to the run-time @ensure) and the article clause."
+    "(delegated to the run-time @ensure); of the article clause, that the re-flow keeps tokens whole follows from WIDTH/GHOST (segments are joins of whole tokens)."
 )
 TECHNIQUE = "static analysis: loop-invariant check with difference constraints (zones) and paired ghost updates on the AST of wrap_text_into_lines"
 
@@ -26,6 +28,8 @@ def run(ctx) -> None:
     ctx.rule("WIDTH", "every emitted segment is bounded by line_width (loop invariant) or is a single over-long token", floor=4)
     ctx.rule("GHOST", "accumulation and accumulation_len are updated together with matching forms", floor=3)
     ctx.rule("ENSURE", "@ensure(text == ''.join(result)) present", floor=1)
+    ctx.rule("ARTICLE", "while a following word exists, an article only enters the tokens fused with that word", floor=2)
+    ctx.rule("PURE", "the result is a function of (text, line_width): no module-level mutable state, or keyed by every parameter", floor=1)
     f = p.func("common:wrap_text_into_lines")
     W = "line_width"
     ctx.require_anchor(W in f.param_names(), "wrap_text_into_lines has a line_width parameter")
@@ -42,9 +46,18 @@ def run(ctx) -> None:
         ctx.fail("ENSURE", f, f.node, "the post-condition that the segments concatenate to the original text is gone: a lossy split is no longer detected", construct="ensure text preserved")
 
     # the re-flow loop: the for loop containing `<result>.append`
-    rets = [n for n in walk_function_body(f.node) if isinstance(n, ast.Return) and isinstance(n.value, ast.Name)]
+    _check_articles(ctx, f)
+    _check_pure(ctx, f)
+
+    def _ret_name(n: ast.Return):
+        v = n.value
+        if isinstance(v, ast.Call) and dotted_of(v.func) in ("list", "tuple") and len(v.args) == 1:
+            v = v.args[0]
+        return v.id if isinstance(v, ast.Name) else None
+
+    rets = [n for n in walk_function_body(f.node) if isinstance(n, ast.Return) and n.value is not None and _ret_name(n) is not None]
     ctx.require_anchor(len(rets) >= 1, "returns a named list of segments")
-    seg = rets[-1].value.id
+    seg = _ret_name(rets[-1])
     loops = [n for n in f.node.body if isinstance(n, ast.For) and any(isinstance(c, ast.Call) and dotted_of(c.func) == f"{seg}.append" for c in ast.walk(n))]
     ctx.require_anchor(len(loops) == 1 and isinstance(loops[0].target, ast.Name), "one re-flow loop appending to the segments")
     loop = loops[0]
@@ -182,3 +195,102 @@ def _update_form(s: ast.stmt, n_var: str, l_var: str, tok: str) -> Optional[Tupl
             return ("l", "plus")
         return ("l", f"?{short(s)}")
     return None
+
+
+ARTICLES_TEST = ("'a'", "'an'", "'the'")
+
+
+def _check_articles(ctx, f) -> None:
+    """Tokenisation loop: ``article`` holds a pending article.  In the arm where an article is pending and the current part
+    is NOT an article (a following word exists), every element added to the tokens must be ONE string containing both the
+    article and the word; the article alone may only be added when the next part is an article again, or after the loop."""
+    from ..rules import schema as S
+
+    parents = S.parents_of(f)
+    loops = [n for n in f.node.body if isinstance(n, ast.For) and any(isinstance(c, ast.Compare) and all(a in ast.unparse(c) for a in ARTICLES_TEST) for c in ast.walk(n))]
+    ctx.require_anchor(len(loops) == 1 and isinstance(loops[0].target, ast.Name), "one tokenisation loop testing for the articles")
+    loop = loops[0]
+    part = loop.target.id
+    # the pending-article variable: assigned the loop variable under the article test
+    pend = None
+    for n in ast.walk(loop):
+        if isinstance(n, ast.Assign) and len(n.targets) == 1 and isinstance(n.targets[0], ast.Name) and isinstance(n.value, ast.Name) and n.value.id == part:
+            pend = n.targets[0].id
+    ctx.require_anchor(pend is not None, "a variable holds the pending article")
+    # the token list: target of .append/.extend calls in the loop
+    adds = [c for c in ast.walk(loop) if isinstance(c, ast.Call) and isinstance(c.func, ast.Attribute) and c.func.attr in ("append", "extend", "insert") and isinstance(c.func.value, ast.Name)]
+    n_checked = 0
+    for c in adds:
+        guards = [(ast.unparse(t), pol) for t, pol in S.guards_of(c, parents)]
+        pending = any((t == f"{pend} is None" and not pol) or (t == f"{pend} is not None" and pol) for t, pol in guards)
+        is_article = [pol for t, pol in guards if t.startswith(f"{part} in ") and all(a in t for a in ARTICLES_TEST)]
+        # early-exit form: ``if part in ARTICLES: ...; continue`` before the call in the same block
+        for t, pol in S.early_exit_guards(c, f, parents):
+            tt = ast.unparse(t)
+            if tt.startswith(f"{part} in ") and all(a in tt for a in ARTICLES_TEST):
+                is_article.append(pol)
+            if tt == f"{pend} is None":
+                pending = pending or (pol is False)
+        word_follows = pending and is_article and not any(is_article)
+        elems = c.args[0].elts if (c.func.attr == "extend" and c.args and isinstance(c.args[0], (ast.Tuple, ast.List))) else list(c.args[-1:])
+        for e in elems:
+            names = {x.id for x in ast.walk(e) if isinstance(x, ast.Name)}
+            # names may be bound to a fused string earlier in the arm
+            fused_vars = set()
+            for a in ast.walk(loop):
+                if isinstance(a, ast.Assign) and len(a.targets) == 1 and isinstance(a.targets[0], ast.Name):
+                    vn = {x.id for x in ast.walk(a.value) if isinstance(x, ast.Name)}
+                    if {pend, part} <= vn:
+                        fused_vars.add(a.targets[0].id)
+            fused = ({pend, part} <= names) or bool(names & fused_vars)
+            if not word_follows:
+                continue
+            n_checked += 1
+            what = f"pending article and a following word: `{short(e)}` added to the tokens"
+            if fused:
+                ctx.ok("ARTICLE", f, c, what=what + " as one fused token")
+            else:
+                ctx.fail("ARTICLE", f, c, f"while an article is pending and the current part is a word, `{short(e)}` is added as a token of its own: the re-flow can end a segment after the article although a word follows", construct="article and following word not fused")
+    ctx.require_anchor(n_checked >= 1, "the arm `pending article, word follows` adds a token")
+    # after the loop: a pending article at the end of the text is flushed
+    after = f.node.body[f.node.body.index(loop) + 1:]
+    flushed = any(isinstance(s, ast.If) and ast.unparse(s.test) == f"{pend} is not None" and any(isinstance(c, ast.Call) and isinstance(c.func, ast.Attribute) and c.func.attr == "append" for c in ast.walk(s)) for s in after)
+    if flushed:
+        ctx.ok("ARTICLE", f, loop, what="a pending article at the very end is flushed (no following word exists)")
+    else:
+        ctx.fail("ARTICLE", f, loop, "a trailing article is never added to the tokens (the text would be cut)", construct="trailing article flushed")
+
+
+def _check_pure(ctx, f) -> None:
+    """No module-level mutable container is read or written by the function unless every key mentions every parameter."""
+    m = f.module
+    params = [a for a in f.param_names()]
+    mutable = {}
+    for name, v in m.constants.items():
+        if isinstance(v, (ast.Dict, ast.List, ast.Set)) or (isinstance(v, ast.Call) and dotted_of(v.func) in ("dict", "list", "set", "collections.OrderedDict", "collections.defaultdict")):
+            mutable[name] = v
+    used = [n for n in walk_function_body(f.node) if isinstance(n, ast.Name) and n.id in mutable]
+    if not used:
+        ctx.ok("PURE", f, f.node, what="no module-level mutable container is touched")
+        return
+    parents = {}
+    for n in ast.walk(f.node):
+        for c in ast.iter_child_nodes(n):
+            parents[id(c)] = n
+    for u in used:
+        par = parents.get(id(u))
+        key = None
+        if isinstance(par, ast.Subscript) and par.value is u:
+            key = par.slice
+        elif isinstance(par, ast.Attribute) and par.attr in ("get", "setdefault", "pop"):
+            call = parents.get(id(par))
+            if isinstance(call, ast.Call) and call.args:
+                key = call.args[0]
+        elif isinstance(par, ast.Compare) and u in par.comparators:
+            key = par.left
+        names = {x.id for x in ast.walk(key) if isinstance(x, ast.Name)} if key is not None else set()
+        missing = [p_ for p_ in params if p_ not in names]
+        if key is not None and not missing:
+            ctx.ok("PURE", f, u, what=f"`{u.id}` keyed by every parameter")
+        else:
+            ctx.fail("PURE", f, u, f"the module-level container `{u.id}` is accessed with the key `{short(key) if key is not None else '?'}`, which does not mention {missing or params}: a result computed for other argument values is returned (e.g. segments wrapped for another line width)", construct=f"`{u.id}` keyed without {missing or params}")
